@@ -337,6 +337,14 @@ def generate(model: Model):
         except Exception:  # noqa: BLE001
             pass
     try:
+        mod, tree = _fresh("io.parquet")
+        for cdef in (x for x in tree.body if isinstance(x, ast.ClassDef) and x.name == "ReadParquet"):
+            for fn in (x for x in cdef.body if isinstance(x, ast.FunctionDef) and x.name == "_filter_passthrough_available"):
+                for u in (x for x in ast.walk(fn) if isinstance(x, ast.UnaryOp) and ast.unparse(x) == "not self._filtered"):
+                    yield "mutant", "revert:reader-absorbs-filter-after-selection", "R18e", mod.rel, _splice(mod.source, u, "True")
+    except Exception:  # noqa: BLE001
+        pass
+    try:
         mod, tree = _fresh("_repartition")
         for cdef in (x for x in tree.body if isinstance(x, ast.ClassDef) and x.name == "Repartition"):
             for fn in (x for x in cdef.body if isinstance(x, ast.FunctionDef) and x.name == "npartitions"):
@@ -346,6 +354,10 @@ def generate(model: Model):
         pass
     try:
         mod, tree = _fresh("_merge")
+        for cdef in (x for x in tree.body if isinstance(x, ast.ClassDef) and x.name == "Merge"):
+            for fn in (x for x in cdef.body if isinstance(x, ast.FunctionDef) and x.name == "_divisions"):
+                for st in (x for x in ast.walk(fn) if isinstance(x, ast.If) and "_is_single_partition_broadcast" in ast.unparse(x.test) and "npartitions !=" in ast.unparse(x.test)):
+                    yield "mutant", "revert:index-join-merged-divisions-first", "R10k", mod.rel, _drop_stmt(mod, st)
         for cdef in (x for x in tree.body if isinstance(x, ast.ClassDef) and x.name == "BroadcastJoin"):
             for fn in (x for x in cdef.body if isinstance(x, ast.FunctionDef) and x.name == "_layer"):
                 for nm in (x for x in ast.walk(fn) if isinstance(x, ast.Name) and x.id == "_split_partition_like_shuffle"):
